@@ -35,7 +35,7 @@ def install():
 def external_events(scratch):
     """events that touch something outside the interpreter's own files"""
     out = []
-    pyroots = tuple({sys.prefix, sys.base_prefix, os.path.dirname(os.__file__), "/repo", "/venv", "/root/.pyenv"})
+    pyroots = tuple({sys.prefix, sys.base_prefix, os.path.dirname(os.__file__), "/repo", os.environ.get("MAMMOTH_REPO", "/repo"), "/venv", "/root/.pyenv"})
     for ev, args in EVENTS:
         if ev == "open":
             path = args[0]
